@@ -15,7 +15,7 @@ Next == UNCHANGED v
 Spec == Init /\ [][Next]_v
 
 RoundTrips ==
-  LET r == ReadOne(Print(v, DefaultPrint), DefaultParse) IN r.t = "ok" /\ r.v = v
+  LET r == ReadOne(PrintDatum(v, DefaultPrint), DefaultParse) IN r.t = "ok" /\ r.v = v
 
-Emit == PrintT(<<"REPLAY", ToJson([v |-> v, text |-> Print(v, DefaultPrint)])>>)
+Emit == PrintT(<<"REPLAY", ToJson([v |-> v, text |-> PrintDatum(v, DefaultPrint)])>>)
 =============================================================================
